@@ -12,7 +12,7 @@ from pyvc.interp import Opaque, PyExc
 SRC = 'petl.io.sources.'
 
 
-@vc('C15.MemorySource.open', functions=[SRC + 'MemorySource.open', SRC + 'MemorySource.__init__'], props=['C15'],
+@vc('C15.MemorySource.open', functions=[SRC + 'MemorySource.open', SRC + 'MemorySource.__init__'], props=['C15', 'C01'],
     assumptions=['the body of the @contextmanager generator is executed up to its yield (contextlib is trusted, T6)', 'BytesIO()/StringIO() create empty buffers (T7)'])
 def memorysource_open(h):
     for mode in ('rb', 'r', 'wb', 'w', 'ab', 'a'):
@@ -41,7 +41,7 @@ def memorysource_open(h):
                 ctx.assume(smt.cls(data.t) != smt.NONE)
                 cls = closure_of(it, SRC + 'MemorySource')
                 src = it.call(cls, [data if mode.startswith('r') else None], {})
-                old = Opaque('buffer', 'previous-buffer')
+                old = Opaque('buffer', 'previous-buffer', {'closed': False})
                 if have:
                     src.attrs['buffer'] = old
                 ys = []
